@@ -204,6 +204,13 @@ impl<M: Math, H: Hamiltonian<M>, C: Collector<M, H::Point>> NutsTree<M, H, C> {
 
         self.depth += 1;
         self.log_size = log_size;
+        #[cfg(nuts_rs_verif)]
+        crate::verif_hooks::trace_merge(
+            self.depth,
+            self.is_main,
+            self.draw.index_in_trajectory(),
+            self.log_size,
+        );
     }
 
     fn single_step(
